@@ -15,7 +15,14 @@ import (
 	"golang.org/x/tools/go/ssa/ssautil"
 )
 
-const repoRoot = "/repo"
+// repoRoot is /repo; VERIF_REPO overrides it only for evaluating seeded
+// changes in a scratch worktree (registered checks always run on /repo).
+var repoRoot = func() string {
+	if v := os.Getenv("VERIF_REPO"); v != "" {
+		return v
+	}
+	return "/repo"
+}()
 const modPath = "github.com/enfein/mieru/v3"
 
 var verifRoot = func() string {
@@ -258,6 +265,18 @@ func (e *Engine) solve(res *HarnessResult) {
 	// each obligation is push / assert / check / pop.  z3 is asked through
 	// (check-sat-using qfaufbv) so that it bit-blasts instead of using its
 	// slower incremental core (measured: 2-5 s vs > 20 s on the PDEP lemma).
+	// variable supports for the cone-of-influence reduction (computed once)
+	sc := newSupportCalc()
+	var scMu sync.Mutex
+	assumeSupp := make([]bitset, len(e.assumptions))
+	for k, a := range e.assumptions {
+		assumeSupp[k] = sc.support(a)
+	}
+	suppOf := func(t *Term) bitset {
+		scMu.Lock()
+		defer scMu.Unlock()
+		return sc.support(t)
+	}
 	type sctx struct {
 		s         *Solver
 		pr        *Printer
@@ -298,8 +317,33 @@ func (e *Engine) solve(res *HarnessResult) {
 				sb.WriteString("(reset)\n(set-option :produce-models true)\n")
 			}
 		}
+		// cone of influence: only assumptions that (transitively) share a
+		// variable or uninterpreted symbol with the condition can matter; the
+		// rest is satisfiable on its own because the vacuity witness of the
+		// harness (all assumptions together) is required to be sat.
+		var include []bool
+		if !spec.NoCOI {
+			include = make([]bool, nassume)
+			cur := append(bitset{}, suppOf(cond)...)
+			for changed := true; changed; {
+				changed = false
+				for k := 0; k < nassume; k++ {
+					if include[k] || (mode == 0 && e.isFact[k]) {
+						continue
+					}
+					if sk := assumeSupp[k]; len(sk) == 0 || sk.intersects(cur) {
+						include[k] = true
+						cur = cur.or(sk)
+						changed = true
+					}
+				}
+			}
+		}
 		for ; c.nAsserted < nassume; c.nAsserted++ {
 			if mode == 0 && e.isFact[c.nAsserted] {
+				continue
+			}
+			if include != nil && !include[c.nAsserted] {
 				continue
 			}
 			a := e.assumptions[c.nAsserted]
@@ -325,8 +369,8 @@ func (e *Engine) solve(res *HarnessResult) {
 			return "error: " + err.Error(), nil, false
 		}
 		to := timeout
-		if fresh && to > 20*time.Second {
-			to = 20 * time.Second // group queries are an optimisation: give up early, decide individually
+		if fresh && to > 8*time.Second {
+			to = 8 * time.Second // group queries are an optimisation: give up early, decide individually
 		}
 		if mode == 0 && !fresh {
 			// the facts-free attempt is an optimisation too
@@ -475,12 +519,6 @@ func (e *Engine) solve(res *HarnessResult) {
 					results[index[ob]].Verdict = "unsat"
 					results[index[ob]].TimeS = t / float64(len(obs))
 				}
-				return
-			}
-			if len(obs) > 8 {
-				h := len(obs) / 2
-				groupRun(obs[:h], depth+1)
-				groupRun(obs[h:], depth+1)
 				return
 			}
 			for _, ob := range obs {
